@@ -1,2 +1,286 @@
-(** C16 - property theorems (placeholder while the proofs are being written) *)
-From PV Require Import Model.Base Model.Wave.
+(** C16 - waveforms and pulses honour their defining contracts.
+
+    Theorems quantified over [N : numops R] hold for every instance of the
+    number operations, in particular for the IEEE-double instance [FN] that
+    the correspondence ties to /repo bit for bit.  Theorems about [QN] are the
+    exact-arithmetic (rational) reading of the algebraic clauses.  The
+    [..._refuted] theorems exhibit, on the double instance, inputs on which
+    the faithful model violates the property (replayed on /repo, listed in
+    known_findings.d/C16.json). *)
+From Coq Require Import ZArith QArith Qcanon List Bool.
+From Coq Require Import PrimFloat.
+From PV Require Import Model.Base Model.Wave Model.WaveQ.
+From PV Require Import Proofs.Wave Proofs.WaveIdx Proofs.WaveQ Proofs.WaveF.
+Import ListNotations.
+
+(** ** every waveform has exactly [duration] samples (all classes, all durations) *)
+Theorem C16_samples_length :
+  forall (R : Type) (N : numops R) (E : env R),
+    env_ok N E ->
+    forall (w : wf R) (l : list R),
+      validate N E w = Ok tt -> samples N E w = Ok l ->
+      Z.of_nat (length l) = dur w /\ (0 < dur w)%Z.
+Proof. exact @samples_length. Qed.
+Print Assumptions C16_samples_length.
+
+Theorem C16_samples_total :
+  forall (R : Type) (N : numops R) (E : env R),
+    env_ok N E -> forall w : wf R, validate N E w = Ok tt -> exists l, samples N E w = Ok l.
+Proof. exact @samples_total. Qed.
+Print Assumptions C16_samples_total.
+
+(** finiteness FAILS for the degenerate durations 1 (ramp) and 2 (Blackman) *)
+Theorem C16_finite_samples_refuted_ramp_d1 :
+  exists a b l,
+    f_finite a = true /\ f_finite b = true /\
+    validate FN E_bm (WRamp 1 a b) = Ok tt /\
+    samples FN E_bm (WRamp 1 a b) = Ok l /\ length l = 1%nat /\ nonfinite l = true.
+Proof. exact ramp_d1_refuted. Qed.
+Print Assumptions C16_finite_samples_refuted_ramp_d1.
+
+Theorem C16_finite_samples_refuted_blackman_d2 :
+  exists area l,
+    f_finite area = true /\
+    validate FN E_bm (WWin KBlackman 2 area zero) = Ok tt /\
+    samples FN E_bm (WWin KBlackman 2 area zero) = Ok l /\ length l = 2%nat /\
+    nonfinite l = true.
+Proof. exact blackman_d2_refuted. Qed.
+Print Assumptions C16_finite_samples_refuted_blackman_d2.
+
+(** ** documented values *)
+Theorem C16_constant_values :
+  forall (R : Type) (N : numops R) (E : env R) (d : Z) (v : R) (i : Z),
+    (0 <= i < d)%Z ->
+    exists l, samples N E (WConst d v) = Ok l /\
+              nth_error l (Z.to_nat i) = Some (nmul N v (n1 N)).
+Proof. exact @const_values. Qed.
+Print Assumptions C16_constant_values.
+
+Theorem C16_composite_values :
+  forall (R : Type) (N : numops R) (E : env R) (ws : list (wf R)),
+    samples N E (WComp ws) = samples_list N E ws /\ dur (WComp ws) = dur_list ws.
+Proof. exact @composite_values_n. Qed.
+Print Assumptions C16_composite_values.
+
+Theorem C16_ramp_values :
+  forall (E : env Qc) (d : Z) (a b : Qc) (i : Z),
+    (2 <= d)%Z -> (0 <= i < d)%Z ->
+    exists l, samples QN E (WRamp d a b) = Ok l /\
+              nth_error l (Z.to_nat i) =
+              Some (a + (b - a) * (qc_ofZ i / qc_ofZ (d - 1)))%Qc.
+Proof. exact ramp_samples_nth. Qed.
+Print Assumptions C16_ramp_values.
+
+Theorem C16_ramp_endpoints :
+  forall (d : Z) (a b : Qc),
+    (2 <= d)%Z -> ramp_sample QN d a b 0 = a /\ ramp_sample QN d a b (d - 1) = b.
+Proof. intros d a b H. exact (conj (ramp_first d a b H) (ramp_last d a b H)). Qed.
+Print Assumptions C16_ramp_endpoints.
+
+(** ** indices and slices follow Python list semantics *)
+Theorem C16_index_list_semantics :
+  forall d i : Z,
+    (0 <= d)%Z ->
+    check_index d i = match py_index d i with Some j => Ok j | None => Err EIndex end.
+Proof. exact check_index_spec. Qed.
+Print Assumptions C16_index_list_semantics.
+
+Theorem C16_slice_list_semantics :
+  forall (A : Type) (l : list A) (start stop step : option Z),
+    step = None \/ step = Some 1%Z ->
+    exists a b,
+      check_slice (Z.of_nat (length l)) start stop step = Ok (a, b) /\
+      (0 <= a <= b)%Z /\ (b <= Z.of_nat (length l))%Z /\
+      sub_list l a b = py_slice l start stop.
+Proof. exact @check_slice_spec. Qed.
+Print Assumptions C16_slice_list_semantics.
+
+(** ** Blackman / Kaiser: np.sum is a sum, the integral is the area *)
+Theorem C16_np_sum_is_sum : forall (fuel : nat) (l : list Qc), pw QN fuel l = qsum l.
+Proof. exact pw_q. Qed.
+Print Assumptions C16_np_sum_is_sum.
+
+Theorem C16_area_contract :
+  forall (E : env Qc) (k : wkind) (d : Z) (area beta : Qc) (win : list Qc),
+    win_lookup QN (e_win E) k d beta = Some win ->
+    qsum (map (clip0 QN) win) <> 0%Qc ->
+    integral QN E (WWin k d area beta) = Ok area.
+Proof. exact area_contract. Qed.
+Print Assumptions C16_area_contract.
+
+(** ** from_max_val *)
+Theorem C16_blackman_from_max_val_post :
+  forall (R : Type) (N : numops R) (E : env R) (fuel : nat) (maxv area : R) (w : wf R),
+    bm_from_max_val N E fuel maxv area = Ok w ->
+    let sa := nsign N area in
+    let area' := nmul N area (nofZ N sa) in
+    let maxv' := nmul N maxv (nofZ N sa) in
+    nsign N maxv = sa /\
+    exists d0 d df,
+      nceil N (nmul N (ndiv N area' (nmul N (k042 N) maxv')) (k1e3 N)) = Some d0 /\
+      (d0 <= d)%Z /\
+      (exists s, bm_scaling N E area' d = Ok s /\ nlt N maxv' s = false) /\
+      (forall j, (d0 <= j < d)%Z ->
+                 exists s, bm_scaling N E area' j = Ok s /\ nlt N maxv' s = true) /\
+      (df = d \/
+       (df = (d - 1)%Z /\ (d0 < d)%Z /\ Z.odd d = true /\
+        exists m mp, bm_peak N E area' d = Ok m /\ bm_peak N E area' (d - 1) = Ok mp /\
+                     nlt N m mp = true /\ nle N mp maxv' = true)) /\
+      w = (if (sa =? -1)%Z then wneg N (WWin KBlackman df area' (n0 N))
+           else WWin KBlackman df area' (n0 N)).
+Proof. exact @bm_from_max_val_post. Qed.
+Print Assumptions C16_blackman_from_max_val_post.
+
+Theorem C16_blackman_never_exceeds :
+  forall (E : env Qc) (fuel : nat) (maxv area : Qc) (w : wf Qc) (sm : list Qc),
+    (0 < area)%Qc -> (0 < maxv)%Qc ->
+    (forall d win, win_lookup QN (e_win E) KBlackman d 0%Qc = Some win ->
+                   Forall (fun x => x <= 1)%Qc win) ->
+    bm_from_max_val QN E fuel maxv area = Ok w ->
+    samples QN E w = Ok sm ->
+    Forall (fun s => 0 <= s /\ s <= maxv)%Qc sm.
+Proof. exact bm_never_exceeds. Qed.
+Print Assumptions C16_blackman_never_exceeds.
+
+Theorem C16_kaiser_loop_post :
+  forall (R : Type) (N : numops R) (E : env R) (fuel : nat) (maxv area beta : R)
+         (step d : Z) (mvt : R) (d' : Z),
+    ks_loop N E fuel maxv area beta step d mvt = Ok d' ->
+    exists n mv',
+      (0 <= n)%Z /\ d' = (d + step * n)%Z /\
+      (if (n =? 0)%Z then mv' = mvt else ks_peak N E area beta d' = Ok mv') /\
+      (nsign N (nsub N mv' maxv) =? step)%Z = false /\
+      ((0 < n)%Z -> nsign N (nsub N mvt maxv) = step) /\
+      (forall i, (0 < i < n)%Z ->
+                 exists m, ks_peak N E area beta (d + step * i) = Ok m /\
+                           nsign N (nsub N m maxv) = step).
+Proof. exact @ks_loop_post. Qed.
+Print Assumptions C16_kaiser_loop_post.
+
+Theorem C16_kaiser_short_post :
+  forall (E : env Qc) (ds : list Z) (maxv area beta : Qc) (best : Z) (mvb : Qc) (best' : Z),
+    ks_short QN E ds maxv area beta best mvb = Ok best' ->
+    exists mvb',
+      (best' = best /\ mvb' = mvb \/
+       In best' ds /\ ks_peak QN E area beta best' = Ok mvb' /\
+       (mvb' <= maxv)%Qc /\ (mvb < mvb')%Qc) /\
+      (forall d m, In d ds -> ks_peak QN E area beta d = Ok m ->
+                   (m <= maxv)%Qc -> (m <= mvb')%Qc).
+Proof. exact ks_short_post_Q. Qed.
+Print Assumptions C16_kaiser_short_post.
+
+(** ** change of duration preserves the defining parameters *)
+Theorem C16_change_duration :
+  forall (R : Type) (N : numops R) (E : env R) (w : wf R) (d' : Z) (w' : wf R),
+    change_duration N E w d' = Ok w' ->
+    same_params w w' /\ dur w' = d' /\ (0 < d')%Z /\ validate N E w' = Ok tt.
+Proof. exact @change_duration_spec. Qed.
+Print Assumptions C16_change_duration.
+
+(** ** scaling, negation, division *)
+Theorem C16_scale_law :
+  forall (E : env Qc) (k : Qc) (w : wf Qc) (l : list Qc),
+    interp_free w = true -> samples QN E w = Ok l ->
+    samples QN E (wmul QN k w) = Ok (map (fun x => x * k)%Qc l).
+Proof. exact scale_law. Qed.
+Print Assumptions C16_scale_law.
+
+Theorem C16_negation_law :
+  forall (E : env Qc) (w : wf Qc) (l : list Qc),
+    interp_free w = true -> samples QN E w = Ok l ->
+    samples QN E (wneg QN w) = Ok (map Qcopp l).
+Proof. exact neg_law. Qed.
+Print Assumptions C16_negation_law.
+
+Theorem C16_division_law :
+  forall (E : env Qc) (k : Qc) (w : wf Qc) (l : list Qc),
+    interp_free w = true -> samples QN E w = Ok l -> k <> 0%Qc ->
+    exists w', wdiv QN k w = Ok w' /\ samples QN E w' = Ok (map (fun x => x / k)%Qc l).
+Proof. exact div_law. Qed.
+Print Assumptions C16_division_law.
+
+Theorem C16_division_by_zero :
+  forall (R : Type) (N : numops R) (k : R) (w : wf R),
+    wdiv N k w = if neqb N k (n0 N) then Err EZeroDiv else Ok (wmul N (ndiv N (n1 N) k) w).
+Proof. exact @wdiv_spec. Qed.
+Print Assumptions C16_division_by_zero.
+
+(** ** equality agrees with sample-wise closeness *)
+Theorem C16_equality_closeness :
+  forall (R : Type) (N : numops R) (E : env R) (w1 w2 : wf R) (s1 s2 : list R),
+    samples N E w1 = Ok s1 -> samples N E w2 = Ok s2 ->
+    exists b, wf_eq N E w1 w2 = Ok b /\
+              (b = true <-> dur w1 = dur w2 /\
+                            Forall2 (fun x y => isclose N x y = true) s1 s2).
+Proof. exact @wf_eq_spec. Qed.
+Print Assumptions C16_equality_closeness.
+
+(** ** pulses *)
+Theorem C16_pulse_contract :
+  forall (E : env Qc) (amp det : wf Qc) (phase post : Qc) (p : pulse),
+    pulse_new QN E amp det phase post = Ok p ->
+    dur det = dur amp /\
+    (exists sa, samples QN E amp = Ok sa /\ Forall (fun x => 0 <= x)%Qc sa) /\
+    (0 <= p_phase p)%Qc /\ (p_phase p < qc_P)%Qc /\
+    (exists n : Z, phase = (p_phase p + qc_P * qc_ofZ n)%Qc).
+Proof. exact pulse_contract. Qed.
+Print Assumptions C16_pulse_contract.
+
+Theorem C16_pulse_structure :
+  forall (R : Type) (N : numops R) (E : env R) (amp det : wf R) (phase post : R) (p : pulse),
+    pulse_new N E amp det phase post = Ok p ->
+    dur det = dur amp /\
+    (exists sa, samples N E amp = Ok sa /\ Forall (fun x => nlt N x (n0 N) = false) sa) /\
+    p_amp p = amp /\ p_det p = det /\
+    p_phase p = nmodP N phase /\ p_post p = nmodP N post.
+Proof. exact @pulse_new_spec. Qed.
+Print Assumptions C16_pulse_structure.
+
+Theorem C16_pulse_phase_range_refuted :
+  exists phase p,
+    f_finite phase = true /\
+    pulse_new FN E_bm (WConst 4 one) (WConst 4 zero) phase zero = Ok p /\
+    PrimFloat.ltb (p_phase p) f2pi = false /\ PrimFloat.eqb (p_phase p) f2pi = true.
+Proof. exact pulse_phase_2pi_refuted. Qed.
+Print Assumptions C16_pulse_phase_range_refuted.
+
+Theorem C16_pulse_amplitude_refuted :
+  exists amp p sa,
+    validate FN E_bm amp = Ok tt /\
+    pulse_new FN E_bm amp (WConst 1 zero) zero zero = Ok p /\
+    samples FN E_bm (p_amp p) = Ok sa /\
+    existsb (fun x => negb (PrimFloat.leb zero x)) sa = true.
+Proof. exact pulse_nan_amplitude_refuted. Qed.
+Print Assumptions C16_pulse_amplitude_refuted.
+
+(** ** ArbitraryPhase reproduces the phase waveform at every sample *)
+Theorem C16_arbitrary_phase :
+  forall (E : env Qc) (ph : wf Qc) (ps : list Qc) (det : wf Qc) (pc : Qc) (ds : list Qc),
+    (forall d v, ph <> WConst d v) -> (forall d a b, ph <> WRamp d a b) ->
+    samples QN E ph = Ok ps -> dur ph = Z.of_nat (length ps) ->
+    arb_detuning QN E ph = Ok det ->
+    arb_phase_c QN E ph det = Ok pc ->
+    samples QN E det = Ok ds ->
+    (2 <= length ps)%nat /\ length ds = length ps /\ reproduced_phase QN pc ds = ps.
+Proof. exact arbitrary_phase_generic. Qed.
+Print Assumptions C16_arbitrary_phase.
+
+Theorem C16_arbitrary_phase_ramp :
+  forall (E : env Qc) (d : Z) (a b : Qc) (det : wf Qc) (pc : Qc) (ps ds : list Qc),
+    (2 <= d)%Z ->
+    arb_detuning QN E (WRamp d a b) = Ok det ->
+    arb_phase_c QN E (WRamp d a b) det = Ok pc ->
+    samples QN E (WRamp d a b) = Ok ps -> samples QN E det = Ok ds ->
+    reproduced_phase QN pc ds = ps.
+Proof. exact arbitrary_phase_ramp. Qed.
+Print Assumptions C16_arbitrary_phase_ramp.
+
+Theorem C16_arbitrary_phase_const :
+  forall (E : env Qc) (d : Z) (v : Qc) (det : wf Qc) (pc : Qc) (ps ds : list Qc),
+    (0 < d)%Z ->
+    arb_detuning QN E (WConst d v) = Ok det ->
+    arb_phase_c QN E (WConst d v) det = Ok pc ->
+    samples QN E (WConst d v) = Ok ps -> samples QN E det = Ok ds ->
+    reproduced_phase QN pc ds = ps.
+Proof. exact arbitrary_phase_const. Qed.
+Print Assumptions C16_arbitrary_phase_const.
